@@ -22,6 +22,8 @@ def main():
         os.environ["PYTHONHASHSEED"] = "0"
         os.execv(sys.executable, [sys.executable] + sys.argv)
     os.environ["VERIF_TIER"] = a.tier
+    if hasattr(sys, "set_int_max_str_digits"):
+        sys.set_int_max_str_digits(0)       # exact rationals of long iterations have more than 4300 digits
     import warnings
     warnings.filterwarnings("ignore", category=SyntaxWarning)
     os.environ.pop("GCMPY_VERIF", None)
